@@ -13,7 +13,7 @@ import (
 
 var (
 	c15Schemes = []string{"http", "https"}
-	c15Hosts   = []string{"e.com", "E.com", "e.com:8080"}
+	c15Hosts   = []string{"e.com", "E.com", "e.com:8080", "e.com:443", "e.com:80", "[2001:db8::1]", "[2001:db8::1]:8443"}
 	c15Paths   = []string{"", "/", "/a", "/a/", "/a/b", "/a/inbox", "/outbox/b", "/a%20b", "/a%2Fb", "/~u", "/a/Likes", "/users/someone/notes/1"}
 )
 
@@ -46,12 +46,12 @@ func c15LastSegmentIsName(p string) bool {
 func init() {
 	engine.Register(&engine.Check{
 		ID: "C15", Name: "collection-iris", Level: "model_checking",
-		Rule: "owners = scheme{http,https} x host{e.com,E.com,e.com:8080} x 18 paths (root, trailing slash, nested, percent-escapes, segments that are collection names, segments of 50/300/1100 bytes, 17 and 33 segments) x the 8 well-known " +
+		Rule: "owners = scheme{http,https} x host{e.com,E.com,e.com:8080,e.com:443,e.com:80,[2001:db8::1],[2001:db8::1]:8443} x 18 paths (root, trailing slash, nested, percent-escapes, segments that are collection names, segments of 50/300/1100 bytes, 17 and 33 segments) x the 8 well-known " +
 			"collection names (from the live ActivityPubCollections); holders = *Object/*Actor/Object/Actor with each collection property unset / explicit IRI / explicit embedded collection; " +
 			"complete cross product; non-trivial = owner with a non-empty path or holder with an explicit property",
 		Assumptions: []string{"'equivalent' is IRI.Equals with scheme check (validated separately by C14)", "actors are given a specific actor type (Person/Service)"},
 		Bound: func(string) string {
-			return "complete: 108 owners x 8 names (round trips) + 108 owners (negative) + holder matrix 4 forms x 8 names x 3 states x 6 ids (same in both tiers)"
+			return "complete: 252 owners x 8 names (round trips) + 252 owners (negative) + holder matrix 4 forms x 8 names x 3 states x 6 ids (same in both tiers)"
 		},
 		Shards: 8,
 		Run:    c15Run,
